@@ -565,6 +565,18 @@ fn gen_gstr(kn: &Knobs, s: String) -> GStr {
 
 fn gen_text(kn: &Knobs) -> String {
     let n = gen::gen_len(kn.max_str);
+    if kn.classes & gen::CL_CTRL != 0 && chance(1, 12) {
+        // worst case for the reserved window: (almost) every byte expands to a six-byte escape
+        let mut s = String::new();
+        for _ in 0..n {
+            if chance(1, 16) {
+                s.push('a');
+            } else {
+                s.push(char::from_u32(*pick(&[0u32, 1, 2, 3, 4, 5, 6, 7, 0xb, 0xe, 0xf, 0x10, 0x1a, 0x1b, 0x1e, 0x1f])).unwrap());
+            }
+        }
+        return s;
+    }
     gen::gen_string_len(kn.classes, n)
 }
 
